@@ -30,7 +30,16 @@ def run(prop, tier, seed):
     return kanirun.main(prop, tier, seed, extra=extra)
 
 
-EXTRA = {}
+def _e2(prop):
+    def f(root, ctx):
+        import sys, os
+        sys.path.insert(0, os.path.join(kanirun.VERIF, "engines", "mir2smt"))
+        import e2checks
+        return e2checks.run(prop, ctx, kanirun.log)
+    return f
+
+
+EXTRA = {"C18": _e2("C18"), "C16": _e2("C16"), "C06": _e2("C06")}
 
 kanirun.META["C16"] = {
     "bounds": "byte strings of length <= 4 (quick) / <= 8 (thorough) for SharedBytes constructors, <= 3 handles dropped in every order; "
